@@ -84,8 +84,8 @@ def check(case):
             res.skip = "non-finite rate"
             continue
         for label, iface in (("interface", I), ("safe_interface", Sf)):
-            if label == "safe_interface" and not all(v > 0 for v in pt["state"].values()):
-                continue
+            if label == "safe_interface" and (not all(v > 0 for v in pt["state"].values()) or any(v < 0 for v in own)):
+                continue        # the safe interface's guards (missing reactants, negative propensity -> 0) are active
             dx = np.full(len(x), np.nan)
             iface.py_calculate_deterministic_derivative(x.copy(), dx, t)
             for s, i in s2i.items():
@@ -111,7 +111,9 @@ def check(case):
             res.label("species_on_both_sides")
         if rx.get("delay"):
             nt = True
-            res.label("delayed_part")
+            res.label("delayed_part", "delay_type:" + rx["delay"]["type"])
+        if rx.get("signed"):
+            res.label("rate_that_changes_sign")
         res.label("type:" + rx["type"])
     if [s for s in sp["species"] if s in first_use] != first_use:
         nt = True
@@ -123,6 +125,28 @@ def check(case):
 @st.composite
 def cases(draw):
     sp = draw(gen.structural_models(time=True))
+    # rates that change sign (a lumped reversible law kf*A - kr*B is a legitimate deterministic rate): the derivative is
+    # still the stoichiometric sum of the rates, whatever their sign
+    for rx in sp["reactions"]:
+        if rx["type"] == "general" and draw(st.integers(0, 2)) == 0:
+            a, c = draw(st.sampled_from(sp["species"])), draw(st.sampled_from(sp["species"]))
+            k2 = draw(st.sampled_from([0.5, 1.0, 3.0]))
+            kind = draw(st.sampled_from(["reversible", "factor", "negated"]))
+            if kind == "reversible":
+                rx["tree"] = ["sub", ["mul", gen.num(draw(st.sampled_from([0.5, 1.0, 2.0]))), gen.sym(a)], ["mul", gen.num(k2), gen.sym(c)]]
+            elif kind == "factor":
+                rx["tree"] = ["mul", rx["tree"], ["sub", gen.sym(a), gen.num(k2)]]
+            else:
+                rx["tree"] = ["neg", rx["tree"]]
+            rx["pd"]["rate"] = ref.show(rx["tree"])
+            rx["signed"] = True
+    # a delayed part without a delay distribution (delay type "none": delivered with zero delay) is still part of the
+    # delayed stoichiometry
+    for rx in sp["reactions"]:
+        if not rx.get("delay") and draw(st.integers(0, 7)) == 0:
+            dr = draw(st.lists(st.sampled_from(sp["species"]), max_size=2))
+            dp = draw(st.lists(st.sampled_from(sp["species"]), min_size=0 if dr else 1, max_size=2))
+            rx["delay"] = {"type": "none", "r": dr, "p": dp, "pd": {}}
     named = _named_params_used(sp)
     if named and draw(st.integers(0, 4)) == 0:
         return {"kind": "missing", "spec": sp, "drop": draw(st.sampled_from(named))}
